@@ -234,11 +234,11 @@ func sigsMode(seed int64) {
 // keybase
 
 type label struct {
-	Op  string `json:"op"`
-	K   int    `json:"k"`
-	P   string `json:"p"`
-	Q   string `json:"q"`
-	A   struct {
+	Op string `json:"op"`
+	K  int    `json:"k"`
+	P  string `json:"p"`
+	Q  string `json:"q"`
+	A  struct {
 		K int    `json:"k"`
 		P string `json:"p"`
 	} `json:"a"`
@@ -260,17 +260,17 @@ type kbJob struct {
 }
 
 type stepOut struct {
-	B      int             `json:"b"`
-	I      int             `json:"i"`
-	Op     string          `json:"op"`
-	OK     bool            `json:"ok"`
-	Class  string          `json:"class"`
-	Err    string          `json:"err,omitempty"`
-	Key    int             `json:"key"`  // id of the key the call returned (0: none, -1: unknown address)
-	List   []int           `json:"list"` // ids listed after the call
-	Checks map[string]bool `json:"checks,omitempty"`
+	B      int                        `json:"b"`
+	I      int                        `json:"i"`
+	Op     string                     `json:"op"`
+	OK     bool                       `json:"ok"`
+	Class  string                     `json:"class"`
+	Err    string                     `json:"err,omitempty"`
+	Key    int                        `json:"key"`  // id of the key the call returned (0: none, -1: unknown address)
+	List   []int                      `json:"list"` // ids listed after the call
+	Checks map[string]bool            `json:"checks,omitempty"`
 	Probe  map[string]map[string]bool `json:"probe,omitempty"`
-	Panic  string          `json:"panic,omitempty"`
+	Panic  string                     `json:"panic,omitempty"`
 }
 
 func classify(err error) string {
